@@ -322,6 +322,19 @@ func genCase(t *rapid.T) (Case, map[string]bool) {
 				cSel = o.Sel & 63
 				lastIncr = false
 			}
+			if o.K == ops.SetCReg && o.C != nil && o.C.T == 3 && !again && rapid.IntRange(0, 2).Draw(t, "selfref") == 0 {
+				// a blend one of whose operands is the very register being written: "resolved
+				// when stored" means it reads the old contents
+				target := (cSel - o.Adj) & 63
+				cv := *o.C
+				if rapid.Bool().Draw(t, "selfref.which") {
+					cv.G = 0xc0 | target
+				} else {
+					cv.B = 0xc0 | target
+				}
+				o.C = &cv
+				gs.l("blend-reads-the-register-it-writes")
+			}
 			if o.K == ops.SetCReg {
 				if o.Incr {
 					if cSel == 63 {
